@@ -27,9 +27,13 @@ import (
 	"sort"
 	"strings"
 
+	"github.com/projectcalico/calico/felix/bpf/arp"
 	conntrack "github.com/projectcalico/calico/felix/bpf/conntrack/v4"
+	"github.com/projectcalico/calico/felix/bpf/failsafes"
+	"github.com/projectcalico/calico/felix/bpf/ifstate"
 	"github.com/projectcalico/calico/felix/bpf/ipsets"
 	"github.com/projectcalico/calico/felix/bpf/nat"
+	"github.com/projectcalico/calico/felix/bpf/routes"
 	"github.com/projectcalico/calico/felix/bpf/state"
 	"github.com/projectcalico/calico/felix/ip"
 
@@ -461,6 +465,98 @@ func buildRows() {
 		add("6", "calico_nat_affinity_val", "nat_dest.port", o, n, "exact", "nat.NewAffinityValueV6(backend port)")
 		m0 := nat.NewMaglevBackendKeyV6(0, 0).AsBytes()
 		add("6", "cali_maglev_key", "", 0, len(m0), "exact", "len(nat.MaglevBackendKeyV6)")
+	}
+	// ---- routes, interface state, ARP, failsafes ---------------------------------------------------
+	{
+		k0 := routes.NewKey(ip.MustParseCIDROrIP("0.0.0.0/0")).AsBytes()
+		add("4", "cali_rt_key", "", 0, len(k0), "exact", "routes.KeySize")
+		o, n := diffRange(k0, routes.NewKey(ip.MustParseCIDROrIP("0.0.0.0/32")).AsBytes(), "rt key prefix")
+		add("4", "cali_rt_key", "prefixlen", o, n, "within", "routes.NewKey(prefix)")
+		o, n = diffRange(routes.NewKey(c40).AsBytes(), routes.NewKey(c4p).AsBytes(), "rt key addr")
+		add("4", "cali_rt_key", "addr", o, n, "exact", "routes.NewKey(addr)")
+		v0 := routes.NewValueWithNextHop(0, ip.FromNetIP(z4)).AsBytes()
+		add("4", "cali_rt", "", 0, len(v0), "exact", "routes.ValueSize")
+		o, n = diffRange(v0, routes.NewValueWithNextHop(0x01020304, ip.FromNetIP(z4)).AsBytes(), "rt flags")
+		add("4", "cali_rt", "flags", o, n, "exact", "routes.NewValueWithNextHop(flags)")
+		o, n = diffRange(v0, routes.NewValueWithNextHop(0, ip.FromNetIP(p4)).AsBytes(), "rt nexthop")
+		add("4", "cali_rt", "next_hop", o, n, "exact", "routes.NewValueWithNextHop(nextHop)")
+		o, n = diffRange(v0, routes.NewValueWithIfIndex(0, 0x01020304).AsBytes(), "rt ifindex")
+		add("4", "cali_rt", "next_hop", o, n, "exact", "routes.NewValueWithIfIndex(ifIndex)")
+
+		k60 := routes.NewKeyV6(ip.MustParseCIDROrIP("::/0")).AsBytes()
+		add("6", "cali_rt_key", "", 0, len(k60), "exact", "routes.KeyV6Size")
+		o, n = diffRange(k60, routes.NewKeyV6(ip.MustParseCIDROrIP("::/128")).AsBytes(), "rt key6 prefix")
+		add("6", "cali_rt_key", "prefixlen", o, n, "within", "routes.NewKeyV6(prefix)")
+		o, n = diffRange(routes.NewKeyV6(c60).AsBytes(), routes.NewKeyV6(c6p).AsBytes(), "rt key6 addr")
+		add("6", "cali_rt_key", "addr", o, n, "exact", "routes.NewKeyV6(addr)")
+		v60 := routes.NewValueV6WithNextHop(0, ip.FromNetIP(z6)).AsBytes()
+		add("6", "cali_rt", "", 0, len(v60), "exact", "routes.ValueV6Size")
+		o, n = diffRange(v60, routes.NewValueV6WithNextHop(0x01020304, ip.FromNetIP(z6)).AsBytes(), "rt6 flags")
+		add("6", "cali_rt", "flags", o, n, "exact", "routes.NewValueV6WithNextHop(flags)")
+		o, n = diffRange(v60, routes.NewValueV6WithNextHop(0, ip.FromNetIP(p6)).AsBytes(), "rt6 nexthop")
+		add("6", "cali_rt", "next_hop", o, n, "exact", "routes.NewValueV6WithNextHop(nextHop)")
+		o, n = diffRange(v60, routes.NewValueV6WithIfIndex(0, 0x01020304).AsBytes(), "rt6 ifindex")
+		add("6", "cali_rt", "next_hop", o, n, "within", "routes.NewValueV6WithIfIndex(ifIndex)")
+
+		i0 := ifstate.NewValue(0, "", 0, 0, 0, 0, 0, 0, 0, 0).AsBytes()
+		names := []string{"xdp_policy_v4", "ingress_policy_v4", "egress_policy_v4", "xdp_policy_v6", "ingress_policy_v6", "egress_policy_v6", "tc_filter_ingress", "tc_filter_egress"}
+		for _, ver := range []string{"4", "6"} {
+			add(ver, "ifstate_val", "", 0, len(i0), "exact", "ifstate.ValueSize")
+			o, n = diffRange(i0, ifstate.NewValue(0x01020304, "", 0, 0, 0, 0, 0, 0, 0, 0).AsBytes(), "ifstate flags")
+			add(ver, "ifstate_val", "flags", o, n, "exact", "ifstate.NewValue(flags)")
+			o, n = diffRange(i0, ifstate.NewValue(0, "abcdefghijklmnopqrst", 0, 0, 0, 0, 0, 0, 0, 0).AsBytes(), "ifstate name")
+			add(ver, "ifstate_val", "name", o, n, "within", "ifstate.NewValue(name)")
+			for i, nm := range names {
+				a := make([]int, 8)
+				a[i] = 0x01020304
+				o, n = diffRange(i0, ifstate.NewValue(0, "", a[0], a[1], a[2], a[3], a[4], a[5], a[6], a[7]).AsBytes(), "ifstate "+nm)
+				add(ver, "ifstate_val", nm, o, n, "exact", "ifstate.NewValue("+nm+")")
+			}
+		}
+
+		a0 := arp.NewKey(z4, 0).AsBytes()
+		add("4", "arp_key", "", 0, len(a0), "exact", "arp.KeySize")
+		o, n = diffRange(a0, arp.NewKey(p4, 0).AsBytes(), "arp key ip")
+		add("4", "arp_key", "ip", o, n, "exact", "arp.NewKey(ip)")
+		o, n = diffRange(a0, arp.NewKey(z4, 0x01020304).AsBytes(), "arp key ifindex")
+		add("4", "arp_key", "ifindex", o, n, "exact", "arp.NewKey(ifIndex)")
+		a60 := arp.NewKeyV6(z6, 0).AsBytes()
+		add("6", "arp_key", "", 0, len(a60), "exact", "arp.KeyV6Size")
+		o, n = diffRange(a60, arp.NewKeyV6(p6, 0).AsBytes(), "arp key6 ip")
+		add("6", "arp_key", "ip", o, n, "exact", "arp.NewKeyV6(ip)")
+		o, n = diffRange(a60, arp.NewKeyV6(z6, 0x01020304).AsBytes(), "arp key6 ifindex")
+		add("6", "arp_key", "ifindex", o, n, "exact", "arp.NewKeyV6(ifIndex)")
+		m0 := net.HardwareAddr{0, 0, 0, 0, 0, 0}
+		m1 := net.HardwareAddr{1, 2, 3, 4, 5, 6}
+		av0 := arp.NewValue(m0, m0).AsBytes()
+		for _, ver := range []string{"4", "6"} {
+			add(ver, "arp_value", "", 0, len(av0), "exact", "arp.ValueSize")
+			o, n = diffRange(av0, arp.NewValue(m1, m0).AsBytes(), "arp val src")
+			add(ver, "arp_value", "mac_src", o, n, "exact", "arp.NewValue(macSrc)")
+			o, n = diffRange(av0, arp.NewValue(m0, m1).AsBytes(), "arp val dst")
+			add(ver, "arp_value", "mac_dst", o, n, "exact", "arp.NewValue(macDst)")
+		}
+
+		f0 := failsafes.MakeKey(0, 0, false, "0.0.0.0", 32).ToSlice()
+		add("4", "failsafe_key", "", 0, len(f0), "exact", "failsafes.KeySize")
+		o, n = diffRange(f0, failsafes.MakeKey(0xff, 0, false, "0.0.0.0", 32).ToSlice(), "fs proto")
+		add("4", "failsafe_key", "ip_proto", o, n, "exact", "failsafes.MakeKey(ipProto)")
+		o, n = diffRange(f0, failsafes.MakeKey(0, 0x0102, false, "0.0.0.0", 32).ToSlice(), "fs port")
+		add("4", "failsafe_key", "port", o, n, "exact", "failsafes.MakeKey(port)")
+		o, n = diffRange(f0, failsafes.MakeKey(0, 0, true, "0.0.0.0", 32).ToSlice(), "fs flags")
+		add("4", "failsafe_key", "flags", o, n, "exact", "failsafes.MakeKey(outbound)")
+		o, n = diffRange(f0, failsafes.MakeKey(0, 0, false, "1.2.3.4", 32).ToSlice(), "fs addr")
+		add("4", "failsafe_key", "addr", o, n, "exact", "failsafes.MakeKey(ip)")
+		o, n = diffRange(f0, failsafes.MakeKey(0, 0, false, "0.0.0.0", 0).ToSlice(), "fs prefixlen")
+		add("4", "failsafe_key", "prefixlen", o, n, "within", "failsafes.MakeKey(mask)")
+		f60 := failsafes.MakeKeyV6(0, 0, false, "::", 128).ToSlice()
+		add("6", "failsafe_key", "", 0, len(f60), "exact", "failsafes.KeyV6Size")
+		o, n = diffRange(f60, failsafes.MakeKeyV6(0xff, 0, false, "::", 128).ToSlice(), "fs6 proto")
+		add("6", "failsafe_key", "ip_proto", o, n, "exact", "failsafes.MakeKeyV6(ipProto)")
+		o, n = diffRange(f60, failsafes.MakeKeyV6(0, 0x0102, false, "::", 128).ToSlice(), "fs6 port")
+		add("6", "failsafe_key", "port", o, n, "exact", "failsafes.MakeKeyV6(port)")
+		o, n = diffRange(f60, failsafes.MakeKeyV6(0, 0, false, "102:304:506:708:90a:b0c:d0e:f10", 128).ToSlice(), "fs6 addr")
+		add("6", "failsafe_key", "addr", o, n, "exact", "failsafes.MakeKeyV6(ip)")
 	}
 	// ---- per-packet state: Go mirror struct (reflect offsets) ------------------------------------
 	{
